@@ -1,0 +1,69 @@
+//go:build verif
+
+// Contracts for package price (machine-checked by /verif/engine; comment-only file).
+//
+// Prices is a map target -> (commodity -> price of commodity in target). ps[t][c] below is the Go
+// lookup (zero/absent when missing); has(ps, t, c) says the entry exists.
+package price
+
+//@ def has(ps Prices, t *commodity.Commodity, c *commodity.Commodity) bool := (t in ps) && (c in ps[t])
+//@ def mult(x real, y real) real := trunc8(dmul(x, y))
+//
+// Multiply: product truncated (toward zero) to 8 decimals.
+//@ func Multiply
+//@   ensures result == mult(n1, n2)
+//
+// Price / Valuate: a missing price is an error, never a number.
+//@ func (NormalizedPrices).Price
+//@   ensures (result.1 == nil) <==> (c in np)
+//@   ensures result.1 == nil ==> result.0 == np[c]
+//
+//@ func (NormalizedPrices).Valuate
+//@   ensures (result.1 == nil) <==> (c in np)
+//@   ensures result.1 == nil ==> result.0 == mult(a, np[c])
+//
+// Insert: a zero price is rejected and nothing changes; otherwise exactly the two entries of the pair
+// are (over)written: the price, and its reciprocal truncated to 8 decimals.
+//@ def wfPrices(ps Prices) bool := ps != nil
+//@     && (forall t *commodity.Commodity :: {key(ps, t)} (t in ps) ==> ps[t] != nil && live(ps[t]))
+//@     && (forall t1 *commodity.Commodity, t2 *commodity.Commodity :: {rawval(ps, t1), rawval(ps, t2)} (t1 in ps) && (t2 in ps) && t1 != t2 ==> ps[t1] != ps[t2])
+//
+//@ func (Prices).Insert
+//@   requires wfPrices(ps) && commodity != nil && target != nil
+//@   ensures wfPrices(ps)
+//@   modifies ps[*], ps[target][*], ps[commodity][*]
+//@   ensures @zero: price == 0 ==> result != nil && (forall t *commodity.Commodity, c *commodity.Commodity :: {key(rawval(ps, t), c)} (has(ps, t, c) <==> old(has(ps, t, c))) && ps[t][c] == old(ps[t][c]))
+//@   ensures @ok: price != 0 ==> result == nil && has(ps, target, commodity) && has(ps, commodity, target)
+//@        && ps[commodity][target] == trunc8(ddiv(1.0, price)) && (target != commodity ==> ps[target][commodity] == price)
+//@   ensures @others: forall t *commodity.Commodity, c *commodity.Commodity :: {key(rawval(ps, t), c)} !(t == target && c == commodity) && !(t == commodity && c == target)
+//@        ==> (has(ps, t, c) <==> old(has(ps, t, c))) && (has(ps, t, c) ==> ps[t][c] == old(ps[t][c]))
+//
+// normalize(c, res): depth-first traversal of the price graph from c. res only grows; afterwards every
+// neighbour of c is priced; every node priced by this call has all its neighbours priced (closure) and
+// its price is the product (truncated to 8 decimals) of a declared price ps[m][n] and the price of m
+// (justification). Hence priced <=> connected, and each price is a product along a declared chain.
+//@ def noAlias(ps Prices, res NormalizedPrices) bool := forall t *commodity.Commodity :: {rawval(ps, t)} (t in ps) ==> ps[t] != res
+//
+//@ func (Prices).normalize
+//@   requires wfPrices(ps) && res != nil && (c in res) && noAlias(ps, res)
+//@   modifies res[*]
+//@   ensures @grows: forall n *commodity.Commodity :: {key(res, n)} old(n in res) ==> (n in res) && res[n] == old(res[n])
+//@   ensures @closedc: forall n *commodity.Commodity :: {key(rawval(ps, c), n)} has(ps, c, n) ==> (n in res)
+//@   ensures @closed: forall m *commodity.Commodity, n *commodity.Commodity :: {key(rawval(ps, m), n)} (m in res) && !old(m in res) && has(ps, m, n) ==> (n in res)
+//@   ensures @just: forall n *commodity.Commodity :: {key(res, n)} (n in res) && !old(n in res) ==>
+//@        (exists m *commodity.Commodity :: (m in res) && has(ps, m, n) && res[n] == mult(ps[m][n], res[m]))
+//@   loop 1 invariant (c in res)
+//@   loop 1 invariant forall n *commodity.Commodity :: {key(res, n)} old(n in res) ==> (n in res) && res[n] == old(res[n])
+//@   loop 1 invariant forall n *commodity.Commodity :: {$seen[n]} $seen[n] ==> (n in res)
+//@   loop 1 invariant forall m *commodity.Commodity, n *commodity.Commodity :: {key(rawval(ps, m), n)} (m in res) && !old(m in res) && has(ps, m, n) ==> (n in res)
+//@   loop 1 invariant forall n *commodity.Commodity :: {key(res, n)} (n in res) && !old(n in res) ==>
+//@        (exists m *commodity.Commodity :: (m in res) && has(ps, m, n) && res[n] == mult(ps[m][n], res[m]))
+//
+// Normalize(t): t itself has price 1; the result is closed and justified (see normalize).
+//@ func (Prices).Normalize
+//@   requires wfPrices(ps)
+//@   ensures fresh(result) && (t in result) && result[t] == 1.0
+//@   ensures @closed: forall m *commodity.Commodity, n *commodity.Commodity :: {key(rawval(ps, m), n)} (m in result) && has(ps, m, n) ==> (n in result)
+//@   ensures @just: forall n *commodity.Commodity :: {key(result, n)} (n in result) && n != t ==>
+//@        (exists m *commodity.Commodity :: (m in result) && has(ps, m, n) && result[n] == mult(ps[m][n], result[m]))
+//@   ensures @direct: forall n *commodity.Commodity :: {key(rawval(ps, t), n)} has(ps, t, n) && n != t ==> (n in result) && result[n] == mult(ps[t][n], 1.0)
